@@ -30,10 +30,10 @@ class _Time:
         return 0.0
 
 
-hx.set(ex, "time", _Time)
-hx.set(ex, "expand_saved_queries", lambda zdir, q: q)
+hx.put(ex, "time", _Time)
+hx.put(ex, "expand_saved_queries", lambda zdir, q: q)
 _CUR_QUERY = [None]
-hx.set(ex, "build_zorg_query", lambda q: _CUR_QUERY[0])
+hx.put(ex, "build_zorg_query", lambda q: _CUR_QUERY[0])
 
 G, O, S = GroupByType, OrderByType, SelectStaticType
 KINDS = [None, NoteType.OPEN_TODO, NoteType.CLOSED_TODO, NoteType.CANCELED_TODO,
